@@ -116,3 +116,17 @@ func Paths(root *uni.Node, tag string, maxDepth, limit int) []PathEntry {
 	}
 	return out
 }
+
+// Probe walks parts from root (no bindings, no unknown value) and reports
+// "found", "notfound" (a key or field is absent) or "failed".
+func Probe(root *uni.Node, tag string, parts []string) string {
+	e := &Env{Root: root, Tag: tag}
+	_, st := e.walk(parts)
+	switch st {
+	case found:
+		return "found"
+	case notFound:
+		return "notfound"
+	}
+	return "failed"
+}
